@@ -92,6 +92,12 @@ def votesStr (h : HVS) : String :=
   s!"R{h.round}[" ++ " ".intercalate (sorted.map fun (r, rv) =>
     s!"{r}:{vsStr rv.prevotes},{vsStr rv.precommits}") ++ "]"
 
+/-- FNV-1a, 32 bit, over the (ASCII) characters -/
+def fnv32 (s : String) : UInt32 :=
+  s.toList.foldl (fun h ch => (h ^^^ ch.toNat.toUInt32) * 16777619) 2166136261
+
+/-- The harness kit cuts implementation outputs at 300 characters: a line that would be longer
+carries a digest of the vote sets instead of their text. -/
 def observe (s : Node) : String :=
   let prop := match s.proposal with
     | none => "-"
@@ -101,10 +107,13 @@ def observe (s : Node) : String :=
     | some id => blkName id
   let tick := s!"{s.tickLast.height}/{s.tickLast.round}/{s.tickLast.step}{if s.tickArmed then "+" else "-"}"
   let dec := ",".intercalate (s.decided.reverse.map fun (h, b) => s!"{h}:{blkName b}")
-  s!"{s.height}/{s.round}/{s.step.toNat} lr={s.lockedRound} lb={optBlk s.lockedBlock} " ++
-  s!"vr={s.validRound} vb={optBlk s.validBlock} p={prop} pb={optBlk s.proposalBlock} pbp={pbp} " ++
-  s!"cr={s.commitRound} ttp={if s.triggeredTimeoutPrecommit then 1 else 0} tick={tick} " ++
-  s!"q=[{",".intercalate (s.queue.map msgStr)}] dec=[{dec}] sent={s.sent.length} v={votesStr s.votes}"
+  let head := s!"{s.height}/{s.round}/{s.step.toNat} lr={s.lockedRound} lb={optBlk s.lockedBlock} " ++
+    s!"vr={s.validRound} vb={optBlk s.validBlock} p={prop} pb={optBlk s.proposalBlock} pbp={pbp} " ++
+    s!"cr={s.commitRound} ttp={if s.triggeredTimeoutPrecommit then 1 else 0} tick={tick} " ++
+    s!"q=[{",".intercalate (s.queue.map msgStr)}] dec=[{dec}] sent={s.sent.length} v="
+  let vs := votesStr s.votes
+  if head.length + vs.length ≤ 290 then head ++ vs
+  else head ++ s!"#{(fnv32 vs).toNat}:{vs.length}"
 
 def runInput (st : St) (i : Input) : Option St × String :=
   if st.s.halted then (some st, "halted") else
@@ -117,11 +126,11 @@ def step (st? : Option St) (t : List String) : Option St × String :=
   | _, ["init", me, powers, tab] =>
     match pNat me, (powers.splitOn ",").mapM pNat, parseTable tab with
     | some me, some ps, some tab =>
-      if ps.isEmpty ∨ ps.length > 9 ∨ me ≥ ps.length ∨ ps.any (· == 0) then (none, "err:badop") else
+      if ps.isEmpty ∨ ps.length > 9 ∨ me ≥ ps.length ∨ ps.any (· == 0) then (st?, "err:badop") else
       let k : NodeCfg := { me, vals := (List.range ps.length).zip ps, proposer := tableProposer tab }
       let s := Node.init k
       (some ⟨k, s⟩, observe s)
-    | _, _, _ => (none, "err:badop")
+    | _, _, _ => (st?, "err:badop")
   | none, _ => (none, "err:noinit")
   | some st, ["start"] => runInput st .start
   | some st, ["timeout"] => runInput st .timeout
